@@ -34,6 +34,11 @@ func codeListBase(v ssa.Value, fn *ssa.Function, depth int) string {
 		if core.IsSSAFunc(fn, core.SlipPath, "", "EvalArg") && core.IsNamed(x.Type(), core.SlipPath, "List") {
 			return "EvalArg.args"
 		}
+		// the argument slice of a Call method: Function.Eval copies every function object it finds there back
+		// into the code (Function.Args), so a store of one is a store into the code
+		if fn.Name() == "Call" && fn.Signature.Recv() != nil && core.IsNamed(x.Type(), core.SlipPath, "List") && builtinCallFns[fn] {
+			return "Call.args"
+		}
 	case *ssa.ChangeType:
 		return codeListBase(x.X, fn, depth+1)
 	case *ssa.Slice:
@@ -63,6 +68,18 @@ func provenance(v ssa.Value, seen map[ssa.Value]bool, out map[string]bool) {
 			switch {
 			case core.IsSSAFunc(g, core.SlipPath, "", "ListToFunc"), core.IsSSAFunc(g, core.SlipPath, "", "CompileList"):
 				out["compile"] = true
+				// compiling a value that was itself the result of an evaluation caches that value
+				for _, a := range x.Call.Args {
+					if isObjectSlice(a.Type()) {
+						sub := map[string]bool{}
+						provenance(a, seen, sub)
+						for k := range sub {
+							if strings.HasPrefix(k, "eval:") {
+								out["eval:compiled value of "+strings.TrimPrefix(k, "eval:")] = true
+							}
+						}
+					}
+				}
 			case g.Name() == "Eval" || g.Name() == "EvalArg" || g.Name() == "Call" || g.Name() == "Apply" || g.Name() == "BoundCall" || g.Name() == "Receive":
 				out["eval:"+g.Name()] = true
 			case strings.Contains(strings.ToLower(g.Name()), "varval") || g.Name() == "newUnboundVar":
@@ -142,8 +159,18 @@ func provenance(v ssa.Value, seen map[ssa.Value]bool, out map[string]bool) {
 	}
 }
 
+// builtinCallFns: the Call methods of the registered built-ins.
+var builtinCallFns = map[*ssa.Function]bool{}
+
 func c08cacheImpl(c *core.Ctx, r *core.Reporter) {
 	const rule = "C08.cache"
+	for _, b := range c.Registry() {
+		if b.Call != nil {
+			if fn := c.SSAFunc(b.Call); fn != nil {
+				builtinCallFns[fn] = true
+			}
+		}
+	}
 	r.Rule(rule, "every store into an element of a code list (Function.Args, Lambda.Forms, Code, EvalArg's list) stores a compiled equivalent of the element (result of ListToFunc/CompileList/a creator, a Funky taken from the evaluated copy, a variable cell) and never the result of an evaluation", 6)
 	for _, fn := range c.ModuleFuncs() {
 		for _, b := range fn.Blocks {
